@@ -79,6 +79,11 @@ func (s *httpProxy) Handle(ctx context.Context, conn net.Conn) error {
 			return err
 		}
 
+		if _, ok := req.Header["User-Agent"]; !ok {
+			// relay the request as it came: without this, Write adds Go's default User-Agent
+			req.Header.Set("User-Agent", "")
+		}
+
 		reqBody := &bytes.Buffer{}
 
 		dsw := io.MultiWriter(conn2, reqBody)
